@@ -1341,10 +1341,11 @@ class BinaryOperator(SymbolicExpression, ABC):
     def _flatten_ids_of_(*operands: SymbolicExpression) -> List[int]:
         """
         A flatten node binds one element per row like a variable does, results that depend on it have to be
-        cached per element.
+        cached per element. A concatenation binds its value under its own id: a row served from a cache has to carry it,
+        a later use of the same concatenation in the query reads it from the row.
         """
         return list(dict.fromkeys(node._id_ for operand in operands for node in operand._all_nodes_
-                                  if isinstance(node, Flatten)))
+                                  if isinstance(node, (Flatten, Concatenate))))
 
     def yield_final_output_from_cache(self, variables_sources, cache: Optional[IndexedCache] = None) \
             -> Iterable[Dict[int, HashedValue]]:
